@@ -322,6 +322,38 @@ def run(ck):
                     ck.nontriv(('cli', c['args']).__repr__())
             if rc == 1 and not (se.strip() or so.strip()):
                 viol.append(('cli-silent', dict(desc, kind='failure status without any message'), sig))
+        # ---------------- C2: fixed-size buffers on the way: very long option values, paths and names that end up in messages; outputs
+        # whose line count crosses the 1024-line growth step of the block writers (header + one line per sequence + separators)
+        extra = []
+        longs = ''.join(rng.choice('abcdefghijklmnopqrstuvwxyz0123456789') for _ in range(rng.choice([1000, 1100, 1500])))
+        if okfiles:
+            extra.append((['-i', os.path.join(tmp, longs[:240], longs)[:4000], '-o', os.path.join(tmp, 'x1.out')], 'missing input with a very long path'))
+            extra.append((['-i', okfiles[0], '--format', longs, '-o', os.path.join(tmp, 'x2.out')], 'very long --format value'))
+            extra.append((['-i', okfiles[0], '--type', longs, '-o', os.path.join(tmp, 'x3.out')], 'very long --type value'))
+        ln_in = os.path.join(tmp, 'longname_empty.fa')
+        open(ln_in, 'w').write('>%s\n\n>a\nACGTACGTTGCA\n>b\nACGTTCGTGCA\n>%s\nACGTACGTGCA\n' % (longs, longs[::-1]))
+        extra.append((['-i', ln_in, '-o', os.path.join(tmp, 'x4.out')], 'a header-only record and a record with names of 1000+ bytes'))
+        for nseq in ([1016, 1017] if quick else [1000, 1015, 1016, 1017, 1018, 1022, 1023, 1024, 2040]):
+            root = gen.rand_seq(rng, gen.DNA, rng.range(24, 40))
+            mf = os.path.join(tmp, 'many%d.fa' % nseq)
+            open(mf, 'w').write(gen.fasta(['q%d' % i for i in range(nseq)], [gen.mutate(rng, root, gen.DNA, 8, 4) for _ in range(nseq)]))
+            for f2 in (('msf', 'clu') if not quick or nseq == 1016 else ('msf',)):
+                extra.append((['-i', mf, '-f', f2, '-n', '4', '-o', os.path.join(tmp, 'many%d.%s' % (nseq, f2))], '%d sequences written as %s' % (nseq, f2)))
+        def run_extra(e):
+            try:
+                p = subprocess.run([cli] + e[0], stdin=subprocess.DEVNULL, stdout=subprocess.PIPE, stderr=subprocess.PIPE, timeout=600, env=cenv)
+                return p.returncode, p.stderr.decode('latin-1')
+            except subprocess.TimeoutExpired:
+                return -999, 'TIMEOUT'
+        with ThreadPoolExecutor(max_workers=8) as ex:
+            eres = list(ex.map(run_extra, extra))
+        ck.evaluations += len(extra)
+        for (argv, what), (rc, se) in zip(extra, eres):
+            ck.count('cli-extra:' + what.split(' written')[0][:60])
+            san = re.search(r'(ERROR: AddressSanitizer: [\w-]+|runtime error: [^\n]{0,160}|TIMEOUT)', se)
+            if rc not in (0, 1) or san:
+                viol.append(('cli-crash', {'argv': [a if len(a) < 300 else a[:120] + '...(%d bytes)' % len(a) for a in argv], 'what': what, 'exit_status': rc,
+                                           'kind': 'sanitizer report / signal / hang in the command-line program: ' + (san.group(1) if san else 'rc=%d' % rc), 'stderr_tail': se[-1500:]}, None))
         if cases:
             ck.sample({'argv': cases[0]['args'], 'exit_status': cres[0][0], 'model': mres[0]})
         # ---------------- D (thorough): valgrind on a sample -----------------------------------------------------------
